@@ -20,6 +20,7 @@ import (
 	"github.com/cespare/xxhash/v2"
 	"github.com/olric-data/olric/internal/cluster/partitions"
 	"github.com/olric-data/olric/internal/protocol"
+	"github.com/olric-data/olric/internal/verifhook"
 	"github.com/tidwall/redcon"
 	"github.com/vmihailenco/msgpack/v5"
 )
@@ -111,6 +112,7 @@ func (r *RoutingTable) updateRoutingCommandHandler(conn redcon.Conn, cmd redcon.
 
 	// Used by the LRU implementation.
 	r.setOwnedPartitionCount()
+	verifhook.Point(r.this.Name, "rt.update")
 
 	// Bootstrapped by the coordinator.
 	r.markBootstrapped()
